@@ -26,6 +26,8 @@ pub enum Spec {
     ZoneName(usize),
     ColonZoneName(usize),
     Rule(usize),
+    /// a POSIX rule behind a colon: a colon announces a file name, and there is no such file
+    ColonRule(usize),
     Empty,
     Garbage(usize),
     Unset,
@@ -59,6 +61,7 @@ fn custom_path(k: usize) -> PathBuf {
 pub fn ensure_files() -> Result<(), String> {
     let d = work_dir();
     std::fs::create_dir_all(&d).map_err(|e| format!("harness: {e}"))?;
+    ensure_decoys()?;
     for k in 0..N_CUSTOM {
         let p = custom_path(k);
         let mut m = custom_model(k);
@@ -67,6 +70,28 @@ pub fn ensure_files() -> Result<(), String> {
         let bytes = write_tzif(&m, if k % 2 == 0 { Version::V2 } else { Version::V3 }, Indicators::None, false);
         if std::fs::read(&p).ok().as_deref() != Some(&bytes[..]) {
             let tmp = d.join(format!("z{k}.{}.tmp", std::process::id()));
+            std::fs::write(&tmp, &bytes).map_err(|e| format!("harness: {e}"))?;
+            std::fs::rename(&tmp, &p).map_err(|e| format!("harness: {e}"))?;
+        }
+    }
+    Ok(())
+}
+
+/// working directory of every child: it holds readable decoy files under the relative names the
+/// histories use (zone names, rule strings, garbage). Relative names are "relative to the system zoneinfo
+/// directories", never to the working directory, so none of these may ever be read.
+pub fn decoy_dir() -> PathBuf {
+    work_dir().join("decoy")
+}
+fn ensure_decoys() -> Result<(), String> {
+    let d = decoy_dir();
+    let bytes = write_tzif(&custom_model(1), Version::V2, Indicators::None, false);
+    let names = SYSTEM_ZONES.iter().chain(RULES.iter()).chain(GARBAGE.iter().filter(|g| !g.starts_with(':')));
+    for n in names {
+        let p = d.join(n);
+        if let Some(parent) = p.parent() { std::fs::create_dir_all(parent).map_err(|e| format!("harness: {e}"))?; }
+        if std::fs::read(&p).ok().as_deref() != Some(&bytes[..]) {
+            let tmp = d.join(format!("decoy.{}.tmp", std::process::id()));
             std::fs::write(&tmp, &bytes).map_err(|e| format!("harness: {e}"))?;
             std::fs::rename(&tmp, &p).map_err(|e| format!("harness: {e}"))?;
         }
@@ -89,7 +114,7 @@ pub fn resolve(spec: &Spec) -> Model {
             None => system(),
         },
         Spec::Empty => utc_model(),
-        Spec::Garbage(_) | Spec::Unset => system(),
+        Spec::Garbage(_) | Spec::Unset | Spec::ColonRule(_) => system(),
     }
 }
 pub fn env_value(spec: &Spec) -> Option<String> {
@@ -99,6 +124,7 @@ pub fn env_value(spec: &Spec) -> Option<String> {
         Spec::ZoneName(i) => SYSTEM_ZONES[*i].to_string(),
         Spec::ColonZoneName(i) => format!(":{}", SYSTEM_ZONES[*i]),
         Spec::Rule(i) => RULES[*i].to_string(),
+        Spec::ColonRule(i) => format!(":{}", RULES[*i]),
         Spec::Empty => String::new(),
         Spec::Garbage(i) => GARBAGE[*i].to_string(),
         Spec::Unset => return None,
@@ -209,6 +235,7 @@ impl SubCheck for History {
             2 => (0usize..SYSTEM_ZONES.len()).prop_map(Spec::ZoneName),
             1 => (0usize..SYSTEM_ZONES.len()).prop_map(Spec::ColonZoneName),
             2 => (0usize..RULES.len()).prop_map(Spec::Rule),
+            1 => (0usize..RULES.len()).prop_map(Spec::ColonRule),
             1 => Just(Spec::Empty),
             1 => (0usize..GARBAGE.len()).prop_map(Spec::Garbage),
             1 => Just(Spec::Unset),
@@ -232,6 +259,9 @@ impl SubCheck for History {
             1 => (0usize..N_CUSTOM).prop_map(|a| (Spec::Unset, Spec::AbsPath(a))),
             1 => (0usize..N_CUSTOM).prop_map(|a| (Spec::AbsPath(a), Spec::Unset)),
             1 => (0usize..N_CUSTOM, 0usize..GARBAGE.len()).prop_map(|(a, g)| (Spec::AbsPath(a), Spec::Garbage(g))),
+            // the same text with and without the colon: different sources when the text is a rule
+            1 => (0usize..RULES.len(), any::<bool>()).prop_map(|(a, first)| if first { (Spec::Rule(a), Spec::ColonRule(a)) } else { (Spec::ColonRule(a), Spec::Rule(a)) }),
+            1 => (0usize..SYSTEM_ZONES.len(), any::<bool>()).prop_map(|(a, first)| if first { (Spec::ZoneName(a), Spec::ColonZoneName(a)) } else { (Spec::ColonZoneName(a), Spec::ZoneName(a)) }),
         ];
         let template = (same_kind, 0u8..8, any::<bool>(), prop_oneof![2 => 1080u32..1250, 1 => 50u32..600], 0u8..8, any::<bool>(), 0u8..8).prop_map(|((s1, s2), p1, d1, wait, p2, d2, p3)| {
             vec![
@@ -327,7 +357,7 @@ impl SubCheck for History {
         ensure_files()?;
         let exe = std::env::current_exe().map_err(|e| format!("harness: {e}"))?;
         let json = serde_json::to_string(ops).map_err(|e| e.to_string())?;
-        let out = std::process::Command::new(exe).arg("c18-child").arg(&json).env_remove("TZ").output().map_err(|e| format!("harness: cannot spawn child: {e}"))?;
+        let out = std::process::Command::new(exe).arg("c18-child").arg(&json).env_remove("TZ").current_dir(decoy_dir()).output().map_err(|e| format!("harness: cannot spawn child: {e}"))?;
         if !out.status.success() {
             return Err(format!("child process failed: {:?} {}", out.status, String::from_utf8_lossy(&out.stderr)));
         }
